@@ -271,3 +271,30 @@ for _n, _o in [("Dict", "dict"), ("List", "list"), ("Tuple", "tuple"), ("Set", "
     R.EXTERNALS["typing." + _n] = ZV(L.atom("typing", _n), "Ty")
     L.axiom(T, "bare-" + _n, z3.And(is_special(L.atom("typing", _n)), origin(L.atom("typing", _n)) == ORIGIN[_o],
                                     kind(L.atom("typing", _n)) == K["Other"]))
+
+# ---- names of generics, well-formed (inferable) types
+gname = declare_pred("gname", L.V, L.V, tag="str")
+wf_ty = declare_pred("wf_ty", L.V, L.B)      # not a bare special generic other than Callable, not the bare Union
+R.SPEC["EMPTY_DICT_"] = ZV(L.EMPTY_DICT, "Dict[str,Ty]")
+
+
+def _ax3():
+    ax = lambda n, e: L.axiom(T, n, e)
+    for k, nm in GENERIC_NAME.items():
+        ax("gname-" + k, L.FA(t, z3.Implies(kind(t) == K[k], gname(t) == L.box_str(z3.StringVal(nm))), [gname(t)]))
+    ax("gname-str", L.FA(t, L.is_str(gname(t)), [gname(t)]))
+    ax("wf-def", L.FA(t, wf_ty(t) == z3.And(t != UNION_BARE, z3.Or(z3.Not(is_special(t)), kind(t) == K["Callable"]),
+                                           z3.Implies(kind(t) == K["Other"], z3.And(z3.Not(is_galias(t)), z3.Not(is_special(t))))), [wf_ty(t)]))
+    ax("wf-consts", z3.And(wf_ty(ANY), wf_ty(NONETYPE), wf_ty(CALLABLE)))
+
+
+_ax3()
+
+
+def _field_annotations(ip, a, kw, node):
+    td = a[0]
+    ip.partial(kind(as_v(td)) == K["TD"], "KeyError", node, "field_annotations")
+    return PySeq([ZV(td_req(as_v(td)), "Dict[str,Ty]"), ZV(td_opt(as_v(td)), "Dict[str,Ty]")], "tuple")
+
+
+R.EXTERNALS["monkeytype.typing:field_annotations"] = R.ExtFn(_field_annotations)
